@@ -85,6 +85,13 @@ def _run(prop, tier):
     plan = mod.plan(tier, seed)
     tasks = plan["tasks"]
     cap = plan.get("time_cap")
+    nworkers = plan.get("nworkers", 14)
+    if os.environ.get("VERIF_WORKERS", "").isdigit() and int(os.environ["VERIF_WORKERS"]) > 0:
+        # fewer workers (shared machine): the time cap grows in proportion, the work stays the same
+        n2 = min(nworkers, int(os.environ["VERIF_WORKERS"]))
+        if cap:
+            cap = cap * nworkers / n2
+        nworkers = n2
     deadline = t0 + cap if cap else None
 
     agg = dict(evaluations=0, counters=Counter(), keys=set(), verdicts=Counter(), inconclusive=Counter(), features=Counter(), samples=[], violations=[], kf_seen=Counter(), streams=Counter(), watchdog_cases=[], cover={})
@@ -130,7 +137,7 @@ def _run(prop, tier):
             on_result(r)
     meta = dict(watchdog=0, worker_deaths=0, truncated_batches=0, batches=0)
     if tasks:
-        _, meta = pool.run_tasks(prop, tasks, nworkers=plan.get("nworkers", 14), timeout=plan.get("timeout", 60.0), env_extra=plan.get("env_extra"), deadline=deadline, on_result=on_result)
+        _, meta = pool.run_tasks(prop, tasks, nworkers=nworkers, timeout=plan.get("timeout", 60.0), env_extra=plan.get("env_extra"), deadline=deadline, on_result=on_result)
 
     # cases that hit the watchdog are re-run alone; only a reproducible stall is a violation (and only where the
     # property is about returning at all)
